@@ -54,7 +54,7 @@ pub fn run(tier: &str, seed: u64) -> i32 {
     let dir = work_dir().join(format!("c07-{tier}-{seed}"));
     // C++ (with compiled-in values) decides the description set
     let pairs = if thorough { 48 } else { 6 };
-    let per_type = if thorough { 200 } else { 50 };
+    let per_type = if thorough { 100 } else { 50 };
     let _ = std::fs::remove_dir_all(&dir);
     // draw with the common profile: reuse c14::prepare's machinery with another profile
     let (descs, built, mut dropped) = prepare_common(seed, tier, pairs, per_type, &dir.join("cxx"));
